@@ -31,11 +31,13 @@ func ZZ_C18_Styling() {
 	zz.Assume(sb[0] < 0x80 || true)
 	dg := zz.String("dg", 1)
 	zz.Assume(dg[0] >= '0' && dg[0] <= '9')
-	file := "2020-01-01 (8h!)\n" + sb + " #tag\n    " + dg + "h #a=1 x\n    -30m\n    8:00 - 9:15 #tag\n\n2020-01-02\n    1" + dg + ":00 - ?\n"
+	// a tag value that is plain ASCII or non-ASCII letters (styled AND multi-byte in `tags --values`)
+	val := []string{"1", "b\u00fc", "\u6771\u4eac"}[zz.Choose(3)]
+	file := "2020-01-01 (8h!)\n" + sb + " #tag\n    " + dg + "h #a=" + val + " x\n    -30m\n    8:00 - 9:15 #tag\n\n2020-01-02\n    1" + dg + ":00 - ?\n"
 	theme := []tf.ColourTheme{tf.COLOUR_THEME_DARK, tf.COLOUR_THEME_LIGHT, tf.COLOUR_THEME_BASIC}[zz.Choose(3)]
 	cmdSel := zz.Param("cmd")
-	decimal := zz.Choose(2) == 1   // --decimal
-	viaFlag := zz.Choose(2) == 1   // unstyled run: --no-style flag instead of the no_colour scheme
+	decimal := zz.Choose(2) == 1 // --decimal
+	viaFlag := zz.Choose(2) == 1 // unstyled run: --no-style flag instead of the no_colour scheme
 	aggSel := 0
 	if cmdSel == 3 {
 		aggSel = zz.Choose(5)
